@@ -14,30 +14,53 @@ variable (cfg : Cfg K V) (hs : Handlers K V C E T H D)
 
 /-- a program that never consults the environment behaves the same in every environment -/
 theorem run_env_independent (p : Prog K V C E α) (h : p.EnvFree) (s : St K V) (m : Vol C V)
-    (e₁ e₂ : E) : p.run cfg s m e₁ = p.run cfg s m e₂ := sorry
+    (e₁ e₂ : E) : p.run cfg s m e₁ = p.run cfg s m e₂ := run_env cfg p h s m e₁ e₂
 
 /-- any sequence of ABCI calls (consensus calls and mempool checks) gives the same node and the
     same outputs in every environment -/
 theorem runCalls_env_independent (hf : AllEnvFree hs) (r : Run K V C T H D) (calls : List (Call T))
-    (e₁ e₂ : E) : runCalls cfg hs e₁ r calls = runCalls cfg hs e₂ r calls := sorry
+    (e₁ e₂ : E) : runCalls cfg hs e₁ r calls = runCalls cfg hs e₂ r calls := by
+  induction calls generalizing r with
+  | nil => rfl
+  | cons c cs ih => simp only [runCalls, stepCall_env cfg hs hf r c e₁ e₂, ih]
 
 /-- block histories: same results, same commit write logs (the input of every application hash),
     same final node, whatever the environment -/
 theorem execBlocks_env_independent (hf : AllEnvFree hs) (n : Node K V C T H D)
     (blocks : List (List T)) (e₁ e₂ : E) :
-    execBlocks cfg hs e₁ n blocks = execBlocks cfg hs e₂ n blocks := sorry
+    execBlocks cfg hs e₁ n blocks = execBlocks cfg hs e₂ n blocks := by
+  induction blocks generalizing n with
+  | nil => rfl
+  | cons b bs ih => simp only [execBlocks, execBlock_env cfg hs hf n b e₁ e₂, ih]
 
 /-- the write log of a block's commit is the block cache in first-write order followed by one
     `save`: the hash input is a function of the *sequence* of surviving writes only -/
 theorem block_log_is_cache_in_first_write_order (e : E) (n : Node K V C T H D) (txs : List T) :
     let pre := endBlock cfg hs e (deliverAll cfg hs e (beginBlock cfg hs e n) txs).1
-    (execBlock cfg hs e n txs).2.log = pre.dlv.cache.map (toTreeOp cfg) ++ [.save] := sorry
+    (execBlock cfg hs e n txs).2.log = pre.dlv.cache.map (toTreeOp cfg) ++ [.save] := by
+  intro pre
+  have h1 := beginBlock_frameB cfg hs e n
+  have h2 := deliverAll_frame cfg hs e txs (beginBlock cfg hs e n)
+  have h3 := endBlock_frameB cfg hs e (deliverAll cfg hs e (beginBlock cfg hs e n) txs).1
+  have ht : pre.tree = n.tree := h3.1.trans (h2.1.trans h1.1)
+  show ((pre.dlv.toSt pre.tree).commit cfg).tree.log.drop n.tree.log.length = _
+  rw [st_commit_log, ← ht]
+  exact List.drop_left
 
 /-- sorting makes a traversal independent of the order in which a Go map hands out its keys -/
 theorem sortKeys_perm_invariant (lt : K → K → Bool)
     (irrefl : ∀ a, lt a a = false) (trans : ∀ a b c, lt a b = true → lt b c = true → lt a c = true)
     (total : ∀ a b, a ≠ b → lt a b = true ∨ lt b a = true)
-    (l₁ l₂ : List K) (hp : l₁.Perm l₂) : sortKeys lt l₁ = sortKeys lt l₂ := sorry
+    (l₁ l₂ : List K) (hp : l₁.Perm l₂) : sortKeys lt l₁ = sortKeys lt l₂ := by
+  refine List.Perm.eq_of_pairwise (le := fun a b => lt b a = false) ?_
+    (sortKeys_sorted lt irrefl trans l₁) (sortKeys_sorted lt irrefl trans l₂)
+    ((sortKeys_perm lt l₁).trans (hp.trans (sortKeys_perm lt l₂).symm))
+  intro a b _ _ hab hba
+  apply Classical.byContradiction
+  intro hne
+  rcases total a b hne with h | h
+  · rw [h] at hba; cases hba
+  · rw [h] at hab; cases hab
 
 /-! ## Non-vacuity and the shape of a violation -/
 
@@ -54,6 +77,7 @@ def exN : Node Nat Nat Nat Nat Nat Nat :=
     idx := [], aim := .check, height := 0, closed := false }
 
 theorem env_leak_diverges :
-    (execBlock exCfg leakyH 11 exN []).2.log ≠ (execBlock exCfg leakyH 22 exN []).2.log := sorry
+    (execBlock exCfg leakyH 11 exN []).2.log ≠ (execBlock exCfg leakyH 22 exN []).2.log := by
+  decide
 
 end OLP.Props.C01
